@@ -20,7 +20,9 @@ RULE = ("cases: (a) layers.e2e — a generated tree of nested dataclasses (depth
         "fields with or without default_factory), every leaf assigned to a random subset of the five layers with a distinct "
         "marker per (leaf, source); for each leaf at most one source carries the type's FALSY value (0, '', 0.0, False, []) "
         "so a falsy value always differs from the other layers; 0-3 json/yaml/yml files per file layer in a per-process "
-        "temp dir; parse() (root-less file layout) and ArgumentParser (dest-keyed or root-less, 1-2 destinations); default "
+        "temp dir, with random distinct base names unrelated to the order in which they are listed (so listed order != "
+        "sorted order in most multi-file cases), in 25% of the layers one file listed twice, paths given as str, Path, list, "
+        "tuple or a str/Path mix; parse() (root-less file layout) and ArgumentParser (dest-keyed or root-less, 1-2 destinations); default "
         "layer given as default instance, set_defaults(**kw) before or after add_arguments; --config_path anywhere in argv; "
         "separate malformed streams: unknown key at a random depth of a random source, explicit null, scalar for a nested "
         "section, _type_, stray top-level key, --config_path without the option being enabled; plus an enumerated slice "
@@ -471,9 +473,20 @@ def e2e_case(rng, mk, cls_list=None, api=None, force=None, malformed=None, fmt=N
                 if f["k"] == "leaf" and f["name"] not in kw_before_rl:
                     kw_before_rl[f["name"]] = mk(f["ty"], key=(ri, (f["name"],)))
         regs.append({"dest": dest, "cls": cls, "inst": inst_kw})
+    # file names are random and distinct, unrelated to the order in which the files are listed; sometimes a file is listed twice
+    for f, tok in zip(ctor + (cli or []), rng.sample(FILE_TOKENS, len(ctor) + len(cli or []))):
+        f["name"] = tok
+    def order_of(n):
+        o = list(range(n))
+        if n >= 1 and rng.random() < 0.25:
+            o.insert(rng.randrange(len(o) + 1), rng.randrange(n))
+        return o
+    ctor_order, cli_order = order_of(n_ctor), order_of(len(cli or []))
     case = {"api": api, "nest": nest, "regs": regs, "kw_before_rl": [kw_before_rl] if kw_before_rl else [],
+            "ctor_order": ctor_order, "cli_order": cli_order,
             "kw_before": [kw_before] if kw_before else [], "kw_after": [kw_after] if kw_after else [],
-            "ctor_files": ctor, "ctor_form": rng.choice(["str", "path", "list", "tuple"]) if n_ctor == 1 else rng.choice(["list_str", "list_path", "tuple"]),
+            "ctor_files": ctor, "ctor_form": (rng.choice(["str", "path", "list", "tuple"]) if len(ctor_order) == 1
+                                           else rng.choice(["list_str", "list_path", "tuple", "mixed"])),
             "add_arg": add_arg, "cli_files": cli, "cli_pos": rng.choice(["front", "back", "mid"]), "cmd": cmd}
     if malformed:
         inject(rng, case, malformed, mk)
@@ -520,14 +533,31 @@ def history_case(rng, mk):
     return {"op": "layers.history", "model": False, "case": {"rounds": rounds}}
 
 
+FILE_TOKENS = ["zeta", "alpha", "mid", "base", "prod", "a1", "A2", "local", "x_over", "beta", "_last", "10", "9", "Main"]
+
+
+def listed(case, key):
+    """the files of a layer in the order they are LISTED to the parser: [(index into case[key], file)] — `<layer>_order`
+    may repeat an index (the same file given twice); file names are random and unrelated to this order"""
+    files = case.get(key) or []
+    order = case.get(key.replace("_files", "_order"))
+    if order is None:
+        order = range(len(files))
+    return [(i, files[i]) for i in order if i < len(files)]
+
+
+def file_name(f, kind, i):
+    return f"{f.get('name', kind + str(i))}.{f['fmt']}"
+
+
 def sources_of(case):
-    """every dict source with the way it is keyed: [(name, index, data, rootless)]"""
+    """every dict source in the order it is applied, with the way it is keyed: [(name, index, data, rootless)]"""
     rootless = case["nest"] == "WITHOUT_ROOT" and len(case["regs"]) == 1
     out = [("kw_before_rl", i, d, True) for i, d in enumerate(case.get("kw_before_rl", []))]
     out += [("kw_before", i, d, False) for i, d in enumerate(case["kw_before"])]
     out += [("kw_after", i, d, False) for i, d in enumerate(case["kw_after"])]
-    out += [("ctor", i, f["data"], rootless) for i, f in enumerate(case["ctor_files"])]
-    out += [("cli", i, f["data"], rootless) for i, f in enumerate(case["cli_files"] or [])]
+    out += [("ctor", i, f["data"], rootless) for i, f in listed(case, "ctor_files")]
+    out += [("cli", i, f["data"], rootless) for i, f in listed(case, "cli_files")]
     return out
 
 
@@ -811,10 +841,12 @@ def impl_e2e(c, fixed=None):
     td = _base()
     written = []
     try:
-        ctor_paths = [_write(td, f"ctor{i}", f, fixed) for i, f in enumerate(c["ctor_files"])]
-        written += ctor_paths
-        cli_paths = None if c["cli_files"] is None else [_write(td, f"cli{i}", f, fixed) for i, f in enumerate(c["cli_files"])]
-        written += cli_paths or []
+        stem = fixed or f"{os.getpid()}_{next(_SEQ)}"       # one stem per case: the random names decide the sort order
+        ctor_w = [_write(td, f.get("name", f"ctor{i}"), f, stem) for i, f in enumerate(c["ctor_files"])]
+        cli_w = [_write(td, f.get("name", f"cli{i}"), f, stem) for i, f in enumerate(c["cli_files"] or [])]
+        written += ctor_w + cli_w
+        ctor_paths = [ctor_w[i] for i, _f in listed(c, "ctor_files")]
+        cli_paths = None if c["cli_files"] is None else [cli_w[i] for i, _f in listed(c, "cli_files")]
         form = c["ctor_form"]
         if not ctor_paths:
             config_path = None
@@ -826,6 +858,8 @@ def impl_e2e(c, fixed=None):
             config_path = list(ctor_paths)
         elif form == "list_path":
             config_path = [pathlib.Path(p) for p in ctor_paths]
+        elif form == "mixed":
+            config_path = [p if k % 2 else pathlib.Path(p) for k, p in enumerate(ctor_paths)]
         else:
             config_path = tuple(ctor_paths)
         # option strings of the leaves that get a command-line value, read off a separate parser
@@ -930,9 +964,9 @@ def model_case(case, obs):
         "kw_before": [enc(d) for d in c.get("kw_before_rl", [])] + [enc(d) for d in c["kw_before"]],
         "regs": [{"dest": r["dest"], "cls": enc_cls(r["cls"]), "inst": None if r["inst"] is None else enc(r["inst"])} for r in c["regs"]],
         "kw_after": [enc(d) for d in c["kw_after"]],
-        "ctor_files": [enc(f["data"]) for f in c["ctor_files"]],
+        "ctor_files": [enc(f["data"]) for _i, f in listed(c, "ctor_files")],
         "add_arg": bool(c["add_arg"]) if c["add_arg"] is not None else None,
-        "cli_files": None if c["cli_files"] is None else [enc(f["data"]) for f in c["cli_files"]],
+        "cli_files": None if c["cli_files"] is None else [enc(f["data"]) for _i, f in listed(c, "cli_files")],
         "cmd": enc(c["cmd"]),
     }
 
@@ -1317,6 +1351,11 @@ def tags(case, obs):
     t += [f"api:{c['api']}", f"nest:{c['nest']}", f"regs:{len(c['regs'])}", f"ctor:{len(c['ctor_files'])}",
           "cli:" + ("absent" if c["cli_files"] is None else str(len(c["cli_files"]))), f"addarg:{c['add_arg']}"]
     t += [f"fmt:{f['fmt']}" for f in c["ctor_files"] + (c["cli_files"] or [])]
+    for key, kind in (("ctor_files", "ctor"), ("cli_files", "cli")):
+        names = [file_name(f, kind, i) for i, f in listed(c, key)]
+        if len(names) >= 2:
+            t.append(f"{kind}-order:" + ("duplicate" if len(set(names)) < len(names) else
+                                          "sorted" if names == sorted(names) else "unsorted"))
     t += sorted({f"fact:{k}" for k, *_ in facts(c)})
     depth = max((len(p) for r in c["regs"] for p, _ in leaf_paths(r["cls"])), default=0)
     t.append(f"depth:{depth}")
@@ -1361,7 +1400,9 @@ def shrink(case):
     for key in ("ctor_files", "cli_files"):
         fs = c[key] or []
         for i in range(len(fs)):
-            yield mk(**{key: fs[:i] + fs[i + 1:]})
+            yield mk(**{key: fs[:i] + fs[i + 1:], key.replace("_files", "_order"): None})
+        if c.get(key.replace("_files", "_order")) not in (None, list(range(len(fs)))):
+            yield mk(**{key.replace("_files", "_order"): None})
     if c["cli_files"] == []:
         yield mk(cli_files=None)
     if c["cmd"]:
